@@ -187,12 +187,45 @@ def r3_key(ctx, docs):
         'the chunker key is only repeated / truncated to 16 bytes before it reaches the native code (or replaced by the fixed default when absent)',
         f'the chunker key is rewritten (`{src(bad[0], 60) if bad else ""}`) before it reaches the native code: distinct keys can collapse to the same effective key',
     )
+    # the fixed default replaces an ABSENT key only
+    for a in ast.walk(f.node):
+        if isinstance(a, ast.Assign) and any(isinstance(t, ast.Name) and t.id == pname for t in a.targets) and isinstance(a.value, ast.BinOp) and isinstance(a.value.left, ast.Constant) and isinstance(a.value.left.value, bytes):
+            par = getattr(a, '_parent', None)
+            okg = False
+            if isinstance(par, ast.If) and any(a is x for x in par.body):
+                t = par.test
+                absent = (isinstance(t, ast.UnaryOp) and isinstance(t.op, ast.Not) and isinstance(t.operand, ast.Name) and t.operand.id == pname) or (
+                    isinstance(t, ast.Compare) and len(t.ops) == 1 and isinstance(t.ops[0], ast.Is) and isinstance(t.left, ast.Name) and t.left.id == pname and isinstance(t.comparators[0], ast.Constant) and t.comparators[0].value is None
+                )
+                okg = absent
+            ctx.check(
+                okg,
+                'C11.R3',
+                f'{func_label(f)}|default-key-only-when-absent',
+                loc(f, a),
+                'the fixed default chunker key is used only when no key is given',
+                f'the fixed default chunker key also replaces keys that were given (guard `{src(par.test, 60) if isinstance(par, ast.If) else "none"}`): distinct keys collapse to the public default - '
+                'boundaries no longer depend on the key',
+            )
     # chunkify passes the family key (shared with C07.R2)
     ck = ctx.corpus.func('repository', 'RepositoryProps.chunkify')
     ev = Evaluator(ctx.corpus, modes={'encrypted': True}, depth=3)
     r = ev.run(ck)
     ok = any(a[0] == 'call' and dict(a[3]).get('params') is not None and contains(dict(a[3])['params'], lambda y: y == ('const', 'chunker_params')) for a in alts(r))
     ctx.check(ok, 'C11.R3', f'{func_label(ck)}|family-key-passed', loc(ck, ck.node), "chunkify passes private['chunker_params'] as the chunker key", 'chunkify does not pass the family chunker key')
+    from ..terms import strip_sites as _ss
+
+    keys = [dict(a[3]).get('params') for a in alts(_ss(r)) if a[0] == 'call']
+    exact = bool(keys) and all(k is not None and k[0] == 'sub' and k[2] == ('const', 'chunker_params') and k[1][0] == 'attr' and k[1][2] == 'private' for k in keys)
+    ctx.check(
+        exact,
+        'C11.R3',
+        f'{func_label(ck)}|family-key-passed-as-stored',
+        loc(ck, ck.node),
+        "chunkify: the chunker key is private['chunker_params'] itself - the same bytes for every key of the family",
+        f"chunkify: the chunker key is {show(keys[0], limit=120) if keys else None}, not private['chunker_params'] as stored: a key of the family that differs in anything mixed in (the user key, the password) "
+        'cuts the same data at other places - data uploaded through a shared key is not reused',
+    )
 
 
 def r4_repository_chunker(ctx, rule='C11.R3'):
